@@ -61,8 +61,8 @@ type Program struct {
 	fieldWritesCache map[*FuncInfo]map[string]bool
 	nodeWritesCache  map[ast.Node][]nodeWrite
 	resRangeCache    map[*FuncInfo]*resRange
-	resBelowCache map[*FuncInfo]*resBelow
-	replayCache   map[*FuncInfo]map[*ast.IndexExpr]*replayVisit
+	resBelowCache    map[*FuncInfo]*resBelow
+	replayCache      map[*FuncInfo]map[*ast.IndexExpr]*replayVisit
 	nonNilVars       map[*types.Var]bool
 	postcondBusy     bool
 
